@@ -144,13 +144,59 @@ def _input_factory(inp: Recipe) -> Any:
         return functools.partial(EmbeddingLayer, **kw)
     if t == "polynomial":
         return functools.partial(PolynomialLayer, degree=inp["degree"])
+    if t == "gaussian_sig":
+        # 'signature' Gaussians (C15 attribution): unit u of variable v has mean 10*v + u and a
+        # tiny standard deviation, so round(sample) identifies (variable, unit)
+        from cirkit.symbolic.parameters import ConstantParameter, Parameter
+
+        sigma = float(inp.get("sigma", 1e-3))
+
+        def gauss_factory(scope: Any, num_units: int) -> Any:
+            (v,) = tuple(scope)
+            mean = np.array([10.0 * v + u for u in range(num_units)])
+            return GaussianLayer(
+                scope, num_units,
+                mean=Parameter.from_input(ConstantParameter(num_units, value=mean)),
+                stddev=Parameter.from_input(ConstantParameter(num_units, value=sigma)),
+            )
+
+        return gauss_factory
+    if t == "categorical_sparse":
+        # constant, sparse (some exactly-zero) probability tables, rows summing to one: gives
+        # the circuit a non-trivial support.  'onehot': unit u of variable v always emits
+        # (v + u + shift) % k.
+        from cirkit.symbolic.parameters import ConstantParameter, Parameter
+
+        k = int(inp["k"])
+
+        def cat_factory(scope: Any, num_units: int) -> Any:
+            (v,) = tuple(scope)
+            if inp.get("onehot"):
+                tab = np.zeros((num_units, k))
+                for u in range(num_units):
+                    tab[u, (v + u + int(inp.get("shift", 0))) % k] = 1.0
+            else:
+                rs = np.random.RandomState(int(inp["seed"]) + 97 * v)
+                tab = rs.uniform(0.1, 1.0, size=(num_units, k))
+                mask = rs.uniform(size=(num_units, k)) < 0.45
+                for u in range(num_units):
+                    if mask[u].all():
+                        mask[u, rs.randint(k)] = False
+                tab[mask] = 0.0
+                tab = tab / tab.sum(axis=1, keepdims=True)
+            return CategoricalLayer(
+                scope, num_units, num_categories=k,
+                probs=Parameter.from_input(ConstantParameter(num_units, k, value=tab)),
+            )
+
+        return cat_factory
     raise HarnessError(f"unknown input type {t}")
 
 
 def input_domain(inp: Recipe) -> tuple[str, int]:
     """("discrete", number of states) or ("real", 0)."""
     t = inp["type"]
-    if t == "categorical" or t == "embedding":
+    if t in ("categorical", "embedding", "categorical_sparse"):
         return "discrete", int(inp["k"])
     if t == "binomial":
         return "discrete", int(inp["k"]) + 1
